@@ -98,18 +98,18 @@ theorem sysId_coherent (c : Lut K) (s : RegState K) (h : Coherent pre parse c s)
 
 /-- the cache part of `editSafe`, unpacked -/
 theorem editSafe_cache (s : RegState K) (sym : String) (delKey : Bool)
-    (h : editSafe parse s sym delKey = true) (q : String) (i : Nat) (hq : (q, i) ∈ s.cache)
+    (h : editSafe parse s sym delKey false = true) (q : String) (i : Nat) (hq : (q, i) ∈ s.cache)
     (hne : delKey = true → q ≠ sym) (ex : PExpr K) (hp : parse q = .ok ex) :
     exprAvoids sym ex = true := by
-  simp only [editSafe, Bool.and_eq_true, List.all_eq_true] at h
+  simp only [editSafe, Bool.false_or, Bool.and_eq_true, List.all_eq_true] at h
   have := h.2 (q, i) hq
   simp only [hp, Bool.or_eq_true, Bool.and_eq_true, beq_iff_eq] at this
   rcases this with ⟨hd, heq⟩ | h3
   · exact (hne hd heq).elim
   · exact h3
 
-theorem editSafe_derived (s : RegState K) (sym : String) (delKey : Bool)
-    (h : editSafe parse s sym delKey = true) (k : String) (hk : k ∈ s.derived) :
+theorem editSafe_derived (s : RegState K) (sym : String) (delKey clears : Bool)
+    (h : editSafe parse s sym delKey clears = true) (k : String) (hk : k ∈ s.derived) :
     restNe k sym = true ∧ (delKey = true → k ≠ sym) := by
   simp only [editSafe, Bool.and_eq_true, List.all_eq_true] at h
   have := h.1 k hk
@@ -119,27 +119,36 @@ theorem editSafe_derived (s : RegState K) (sym : String) (delKey : Bool)
   · rw [hd] at h1; contradiction
   · exact h1
 
-/-- a successful edit of `sym`: both tables change at `sym` only and agree there afterwards -/
+/-- a successful edit of `sym`: both tables change at `sym` only and agree there afterwards; the
+    cache afterwards is `cacheAfterEdit` -/
 theorem edit_core (c c' : Lut K) (s : RegState K) (sym : String) (delKey : Bool)
-    (h : Coherent pre parse c s) (hsafe : editSafe parse s sym delKey = true)
-    (t' : Lut K) (cache' : List (String × Nat))
+    (h : Coherent pre parse c s) (hsafe : editSafe parse s sym delKey cfg.clearCache = true)
+    (t' : Lut K)
     (h1 : ∀ k, k ≠ sym → t'.find? k = s.lut.find? k)
     (h2 : ∀ k, k ≠ sym → c'.find? k = c.find? k)
-    (h3 : t'.find? sym = c'.find? sym)
-    (hcache : ∀ q i, (q, i) ∈ cache' → (q, i) ∈ s.cache ∧ (delKey = true → q ≠ sym)) :
+    (h3 : t'.find? sym = c'.find? sym) :
     LutRefines pre c' t' (s.derived.filter (· ≠ sym)) ∧
-    (∀ q i, (q, i) ∈ cache' →
+    (∀ q i, (q, i) ∈ cacheAfterEdit cfg s.cache sym delKey →
       ∃ ex u, parse q = .ok ex ∧ s.objs[i]? = some u ∧ pureEval pre c' ex = some u) := by
   obtain ⟨hl, hc, hm⟩ := h
   refine ⟨?_, ?_⟩
   · exact refines_edit pre c c' s.lut t' s.derived sym hl
-      (fun k hk => (editSafe_derived parse s sym delKey hsafe k hk).1) h1 h2 h3
+      (fun k hk => (editSafe_derived parse s sym delKey _ hsafe k hk).1) h1 h2 h3
   · intro q i hq
-    obtain ⟨hin, hne⟩ := hcache q i hq
-    obtain ⟨ex, u, a1, a2, a3⟩ := hc q i hin
-    refine ⟨ex, u, a1, a2, ?_⟩
-    rw [pureEval_agree pre c c' sym h2 ex (editSafe_cache parse s sym delKey hsafe q i hin hne ex a1)]
-    exact a3
+    cases hcl : cfg.clearCache
+    · rw [hcl] at hsafe
+      have hmem : (q, i) ∈ s.cache ∧ (delKey = true → q ≠ sym) := by
+        simp only [cacheAfterEdit, hcl, Bool.false_eq_true, if_false] at hq
+        cases hd : delKey
+        · simp only [hd, Bool.false_eq_true, if_false] at hq
+          exact ⟨hq, fun h => by simp at h⟩
+        · simp only [hd, if_true, List.mem_filter, decide_eq_true_eq] at hq
+          exact ⟨hq.1, fun _ => hq.2⟩
+      obtain ⟨ex, u, a1, a2, a3⟩ := hc q i hmem.1
+      refine ⟨ex, u, a1, a2, ?_⟩
+      rw [pureEval_agree pre c c' sym h2 ex (editSafe_cache parse s sym delKey hsafe q i hmem.1 hmem.2 ex a1)]
+      exact a3
+    · simp [cacheAfterEdit, hcl] at hq
 
 theorem invalidate_idMemo (s : RegState K) : (invalidate cfg s).idMemo = none := by
   simp only [invalidate]
@@ -160,11 +169,11 @@ theorem mem_filter_cache (l : List (String × Nat)) (sym q : String) (i : Nat)
 /-- in a state where the edit is safe, `sym` is not a derived key (for `modify`/`remove`), so the
     concrete table and the contents agree on whether and how `sym` is defined -/
 theorem find_sym_agree (c : Lut K) (s : RegState K) (sym : String)
-    (h : Coherent pre parse c s) (hsafe : editSafe parse s sym true = true) :
+    (h : Coherent pre parse c s) (hsafe : editSafe parse s sym true cfg.clearCache = true) :
     s.lut.find? sym = c.find? sym := by
   apply h.lut.plain
   intro hin
-  exact (editSafe_derived parse s sym true hsafe sym hin).2 rfl rfl
+  exact (editSafe_derived parse s sym true _ hsafe sym hin).2 rfl rfl
 
 theorem edit_coherent (c : Lut K) (s : RegState K) (h : Coherent pre parse c s) (op : Op K)
     (hsafe : opSafe cfg parse s op = true) (hedit : op.isEdit = true) :
@@ -176,36 +185,36 @@ theorem edit_coherent (c : Lut K) (s : RegState K) (h : Coherent pre parse c s) 
   | add sym e =>
     simp only [opSafe, hs1] at hsafe
     simp only [step, specStep, hs1]
-    have := edit_core pre parse c (c.set sym e) s1 sym false hi hsafe (s1.lut.set sym e) s1.cache
+    have := edit_core cfg pre parse c (c.set sym e) s1 sym false hi hsafe (s1.lut.set sym e)
       (fun k hk => find?_set_ne _ _ _ _ hk) (fun k hk => find?_set_ne _ _ _ _ hk)
-      (by simp [Lut.find?_set]) (fun q i hq => ⟨hq, fun hd => by simp at hd⟩)
+      (by simp [Lut.find?_set])
     exact ⟨this.1, this.2, fun _ d hd => by simp [hmemo] at hd⟩
   | addInvalid sym => simp only [step, specStep, hs1]; exact hi
   | modifyF sym v =>
     simp only [opSafe, hs1] at hsafe
-    have hag := find_sym_agree pre parse c s1 sym hi hsafe
+    have hag := find_sym_agree cfg pre parse c s1 sym hi hsafe
     simp only [step, specStep, hs1]
     cases hf : c.find? sym with
     | none => rw [hf] at hag; simp only [hag]; exact hi
     | some e =>
       rw [hf] at hag; simp only [hag]
-      have := edit_core pre parse c (c.set sym { e with scale := v }) s1 sym true hi hsafe
-        (s1.lut.set sym { e with scale := v }) (s1.cache.filter (·.1 ≠ sym))
+      have := edit_core cfg pre parse c (c.set sym { e with scale := v }) s1 sym true hi hsafe
+        (s1.lut.set sym { e with scale := v })
         (fun k hk => find?_set_ne _ _ _ _ hk) (fun k hk => find?_set_ne _ _ _ _ hk)
-        (by simp [Lut.find?_set]) (fun q i hq => mem_filter_cache _ _ _ _ hq)
+        (by simp [Lut.find?_set])
       exact ⟨this.1, this.2, fun _ d hd => by simp [hmemo] at hd⟩
   | modifyQ sym v d own =>
     simp only [opSafe, hs1] at hsafe
-    have hag := find_sym_agree pre parse c s1 sym hi hsafe
+    have hag := find_sym_agree cfg pre parse c s1 sym hi hsafe
     simp only [step, specStep, hs1]
     cases hf : c.find? sym with
     | none => rw [hf] at hag; simp only [hag]; exact hi
     | some e =>
       rw [hf] at hag; simp only [hag]
-      have := edit_core pre parse c (c.set sym { e with scale := v, dim := d }) s1 sym true hi hsafe
-        (s1.lut.set sym { e with scale := v, dim := d }) (s1.cache.filter (·.1 ≠ sym))
+      have := edit_core cfg pre parse c (c.set sym { e with scale := v, dim := d }) s1 sym true hi hsafe
+        (s1.lut.set sym { e with scale := v, dim := d })
         (fun k hk => find?_set_ne _ _ _ _ hk) (fun k hk => find?_set_ne _ _ _ _ hk)
-        (by simp [Lut.find?_set]) (fun q i hq => mem_filter_cache _ _ _ _ hq)
+        (by simp [Lut.find?_set])
       cases hb : (own && !cfg.memoResetLast)
       · simp only [Bool.false_eq_true, if_false]
         exact ⟨this.1, this.2, fun _ d hd => by simp [hmemo] at hd⟩
@@ -213,16 +222,16 @@ theorem edit_coherent (c : Lut K) (s : RegState K) (h : Coherent pre parse c s) 
         exact ⟨this.1, this.2, fun hst => by simp at hst⟩
   | remove sym =>
     simp only [opSafe, hs1] at hsafe
-    have hag := find_sym_agree pre parse c s1 sym hi hsafe
+    have hag := find_sym_agree cfg pre parse c s1 sym hi hsafe
     simp only [step, specStep, hs1]
     cases hf : c.find? sym with
     | none => rw [hf] at hag; simp only [hag]; exact hi
     | some e =>
       rw [hf] at hag; simp only [hag]
-      have := edit_core pre parse c (c.erase sym) s1 sym true hi hsafe
-        (s1.lut.erase sym) (s1.cache.filter (·.1 ≠ sym))
+      have := edit_core cfg pre parse c (c.erase sym) s1 sym true hi hsafe
+        (s1.lut.erase sym)
         (fun k hk => find?_erase_ne _ _ _ hk) (fun k hk => find?_erase_ne _ _ _ hk)
-        (by simp [Lut.find?_erase]) (fun q i hq => mem_filter_cache _ _ _ _ hq)
+        (by simp [Lut.find?_erase])
       exact ⟨this.1, this.2, fun _ d hd => by simp [hmemo] at hd⟩
   | unit q => simp [Op.isEdit] at hedit
   | contains k => simp [Op.isEdit] at hedit
